@@ -91,15 +91,31 @@ Proof.
   apply (parser_reads_frame f bytes rest ctag num channels bps); try assumption.
 Qed.
 
+(* frames whose headers carry the writer's own codes *)
+Definition frame_canon (channels bps : N) (f : frame) : Prop :=
+  f_precomputed f = None /\ header_canon (f_header f) bps /\
+  chassign_channels (h_ch (f_header f)) = channels /\ N.of_nat (length (f_subframes f)) = channels /\
+  (forall i s, nth_error (f_subframes f) i = Some s ->
+     psub_ready (h_block (f_header f)) s (bps + bps_offset (h_ch (f_header f)) (N.of_nat i))).
+
+(* such a frame serialises to exactly the number of bits it reports (C08_frame's hypotheses hold) *)
+Theorem canonical_frame_count_bits f bytes channels bps :
+  frame_canon channels bps f -> frame_bytes f = Ok bytes -> 8 * N.of_nat (length bytes) = frame_count_bits f.
+Proof.
+  intros (Hpre & Hcan & _ & _ & Hsubs) Hfb.
+  apply (frame_count_bits_correct f bytes Hpre); [|exact (canonical_frame_wfb f bps Hpre Hcan Hsubs) | exact Hfb].
+  apply Forall_forall. intros s Hin. apply In_nth_error in Hin. destruct Hin as [i Hi].
+  destruct (Hsubs i s Hi) as (_ & _ & Hv & Hty & _). destruct (verify_subframe_shape s Hty Hv) as [Hs _]. exact Hs.
+Qed.
+
 (* FrameHeader::new + Frame::new *)
-Theorem constructed_frame_parses_back block cha bps rate variable off h subs f bytes rest :
+Theorem constructed_frame_canon block cha bps rate variable off h subs f :
   header_new block cha bps rate variable off = Ok h -> frame_new h subs = Ok f ->
   bps < 256 -> rate < 2 ^ 32 -> (variable = false -> off < 2 ^ 32) ->
   Forall (fun s => sub_typed s /\ sub_quot_u32 s) subs ->
-  frame_bytes f = Ok bytes -> Forall (fun x => x < 256) rest ->
-  p_frame (chassign_channels cha) bps (bytes ++ rest) = Some (f, rest).
+  frame_canon (chassign_channels cha) bps f /\ bps <= c_MAX_BITS_PER_SAMPLE.
 Proof.
-  intros Eh Ef Hbps Hrate Hoff Hsubs Hfb Hrest.
+  intros Eh Ef Hbps Hrate Hoff Hsubs.
   unfold header_new in Eh.
   destruct (guard (block_ok block)) as [[]| |] eqn:G1; cbn [bind] in Eh; try discriminate. apply guard_ok in G1.
   destruct (guard (1 <=? block)) as [[]| |] eqn:G2; cbn [bind] in Eh; try discriminate. apply guard_ok in G2.
@@ -126,7 +142,9 @@ Proof.
   assert (Hss : bits_of_ss_tag (sample_size_tag bps) = Some bps /\ sample_size_tag bps < 8).
   { cbn [In] in Hbpsin. destruct Hbpsin as [<-|[<-|[<-|[<-|[<-|[]]]]]]; split; reflexivity. }
   destruct Hss as [Hss1 Hss2].
-  apply (canonical_frame_parses_back _ bytes rest (chassign_channels cha) bps); cbn [f_precomputed f_header f_subframes h_ch h_block]; try assumption; try reflexivity.
+  split; [|cbn [In] in Hbpsin; change c_MAX_BITS_PER_SAMPLE with 24; destruct Hbpsin as [<-|[<-|[<-|[<-|[<-|[]]]]]]; lia].
+  unfold frame_canon. cbn [f_precomputed f_header f_subframes h_ch h_block].
+  split; [reflexivity|]. split; [|split; [reflexivity|]; split].
   - constructor; cbn [h_block h_bs h_sr h_ss_tag h_number h_variable h_ch].
     + exact Ebc.
     + lia.
@@ -138,10 +156,65 @@ Proof.
     + exact Hoff.
     + exact G6.
   - symmetry. exact F1.
-  - cbn [In] in Hbpsin. change c_MAX_BITS_PER_SAMPLE with 24. destruct Hbpsin as [<-|[<-|[<-|[<-|[<-|[]]]]]]; lia.
   - intros i s Hi.
     destruct (subs_consistent_nth _ subs 0 Fc i s Hi) as [A B]. cbn [h_block h_ss_tag h_ch] in A, B. rewrite Hss1, N.add_0_l in B.
     pose proof (nth_error_In _ _ Hi) as Hin.
     rewrite forallb_forall in Fv. rewrite Forall_forall in Hsubs. destruct (Hsubs s Hin) as [Ht Hq].
     split; [exact A|]. split; [symmetry; exact B|]. split; [apply Fv; exact Hin|]. split; assumption.
+Qed.
+
+Theorem constructed_frame_parses_back block cha bps rate variable off h subs f bytes rest :
+  header_new block cha bps rate variable off = Ok h -> frame_new h subs = Ok f ->
+  bps < 256 -> rate < 2 ^ 32 -> (variable = false -> off < 2 ^ 32) ->
+  Forall (fun s => sub_typed s /\ sub_quot_u32 s) subs ->
+  frame_bytes f = Ok bytes -> Forall (fun x => x < 256) rest ->
+  p_frame (chassign_channels cha) bps (bytes ++ rest) = Some (f, rest).
+Proof.
+  intros Eh Ef Hbps Hrate Hoff Hsubs Hfb Hrest.
+  destruct (constructed_frame_canon block cha bps rate variable off h subs f Eh Ef Hbps Hrate Hoff Hsubs)
+    as [(Hpre & Hcan & Hchn & Hlen & Hs) Hb].
+  exact (canonical_frame_parses_back f bytes rest (chassign_channels cha) bps Hpre Hcan Hchn Hlen Hb Hs Hfb Hrest).
+Qed.
+
+(* ... and writes exactly the number of bits it reports *)
+Theorem constructed_frame_count_bits block cha bps rate variable off h subs f bytes :
+  header_new block cha bps rate variable off = Ok h -> frame_new h subs = Ok f ->
+  bps < 256 -> rate < 2 ^ 32 -> (variable = false -> off < 2 ^ 32) ->
+  Forall (fun s => sub_typed s /\ sub_quot_u32 s) subs ->
+  frame_bytes f = Ok bytes -> 8 * N.of_nat (length bytes) = frame_count_bits f.
+Proof.
+  intros Eh Ef Hbps Hrate Hoff Hsubs Hfb.
+  destruct (constructed_frame_canon block cha bps rate variable off h subs f Eh Ef Hbps Hrate Hoff Hsubs) as [Hc _].
+  exact (canonical_frame_count_bits f bytes (chassign_channels cha) bps Hc Hfb).
+Qed.
+
+(* a canonical frame passes Frame::verify *)
+Lemma subs_consistent_intro h : forall subs ch,
+  (forall i s, nth_error subs i = Some s ->
+     sub_block s = h_block h /\
+     match bits_of_ss_tag (h_ss_tag h) with Some b => b + bps_offset (h_ch h) (ch + N.of_nat i) = sub_bps s | None => True end) ->
+  subs_consistent h ch subs = true.
+Proof.
+  induction subs as [|s t IH]; intros ch H; [reflexivity|]. cbn [subs_consistent].
+  destruct (H 0%nat s eq_refl) as [A B]. rewrite N.add_0_r in B.
+  rewrite A, N.eqb_refl. cbn [andb].
+  assert (C : match bits_of_ss_tag (h_ss_tag h) with Some b => b + bps_offset (h_ch h) ch =? sub_bps s | None => true end = true).
+  { destruct (bits_of_ss_tag (h_ss_tag h)); [apply N.eqb_eq; exact B | reflexivity]. }
+  rewrite C. cbn [andb]. apply IH. intros i s' Hi. specialize (H (S i) s' Hi).
+  replace (ch + 1 + N.of_nat i) with (ch + N.of_nat (S i)) by lia. exact H.
+Qed.
+
+Theorem canonical_frame_verifies f channels bps :
+  frame_canon channels bps f -> h_block (f_header f) <= c_MAX_BLOCK_SIZE -> verify_frame f = true.
+Proof.
+  intros (Hpre & [Hbs Hblk Hsr Hss Hbps Hnum Hnum32 Hch] & Hchn & Hlen & Hsubs) Hmax.
+  unfold verify_frame. rewrite !Bool.andb_true_iff. repeat split.
+  - apply forallb_forall. intros s Hin. apply In_nth_error in Hin. destruct Hin as [i Hi]. destruct (Hsubs i s Hi) as (_ & _ & Hv & _). exact Hv.
+  - unfold verify_header. rewrite !Bool.andb_true_iff. repeat split.
+    + unfold block_ok. apply N.leb_le. exact Hmax.
+    + apply Bool.orb_true_iff. right. apply N.ltb_lt. exact Hnum.
+    + exact Hch.
+  - apply N.eqb_eq. rewrite Hlen, Hchn. reflexivity.
+  - apply subs_consistent_intro. intros i s Hi. destruct (Hsubs i s Hi) as (A & B & _). split; [exact A|].
+    rewrite N.add_0_l. destruct (bits_of_ss_tag (h_ss_tag (f_header f))) as [b|]; [|exact I]. rewrite Hbps. symmetry. exact B.
 Qed.
